@@ -15,6 +15,10 @@ CLAIMED = {
    text="UserFun.tla states the calling convention (received = declared parameters bound by name, defaults for absent optional ones, rejection of missing required names, the partial-evaluation law, frame conditions); TLC model-checks the code-shaped wrapper heap (aliasing, deep copy) against it and enumerates every signature up to 4 parameters with every argument subset; each is executed on real UserFunction / DomainUserFunction objects with a recording function and TLC validates every recorded step.",
    note="Trusted: TLC; the generated recording function (locals() + position-weighted sum). Bounded: <= 4 parameters from a pool of 4 names (+1 foreign name), histories <= 12 operations on <= 6 wrappers.",
    technique="TLA+ model checking of the wrapper heap + exhaustive signature enumeration by TLC + TLC trace validation", ref="5 C13"),
+ "C12": dict(
+   text="PointsTable.tla defines Points/Space as a table with named column groups (get by row/column selectors, set, join, cat, repeat, unsqueeze, arithmetic, order-sensitive equality, space product/sub-space/slice); TLC checks the algebraic laws the property names over all small tables, enumerates the whole index universe on a one-axis and a two-axis table and generates random operation histories; every step is executed on real Points objects and TLC compares the recorded result (and the operands before/after) with the table semantics.",
+   note="Trusted: TLC; cell ids are distinct integers. Bounded: <= 3 variables of dims 1..2, <= 4 rows (exhaustive index universe), histories <= 10 operations on <= 9 tables, one or two batch axes. Advanced row index + column selection on two batch axes is outside the modelled universe; on one axis its zipped result is the known finding pt_zipped_index.",
+   technique="TLA+ table semantics model-checked for its laws + TLC-enumerated index universe and histories + TLC trace validation", ref="5 C12"),
 }
 PENDING_REASON = "check not built yet in this round (design in DESIGN.md section 5); not claimed"
 
